@@ -205,6 +205,38 @@ def load_dir(loop, path):
     return show_registry(nodes)
 
 
+def restart(loop, path):
+    """What an application start does with the post-crash file: enter and leave the gateway context."""
+    from aiomysensors import exceptions as ex
+    from aiomysensors.gateway import Config, Gateway
+    from aiomysensors.transport import Transport
+
+    class T(Transport):
+        async def connect(self):
+            pass
+
+        async def disconnect(self):
+            pass
+
+        async def read(self):
+            await asyncio.sleep(3600)
+
+        async def write(self, decoded_message):
+            pass
+
+    async def go():
+        gw = Gateway(T(), Config(persistence_file=path))
+        async with gw:
+            return show_registry(gw.nodes)
+
+    try:
+        return loop.run_until_complete(go())
+    except ex.PersistenceReadError:
+        return "ERR"
+    except Exception as e:  # noqa: BLE001
+        return "ESCAPE " + type(e).__name__
+
+
 def run(ctx, model_available=True):
     rng = rng_for(ctx.seed, "C15")
     loop = asyncio.new_event_loop()
@@ -279,6 +311,22 @@ def run(ctx, model_available=True):
                     failures.append({"kind": "oracle", "sig": "C15:destroyed",
                                      "desc": f"crash before step {k} of {trace} (torn={torn}): afterwards the file {'is missing' if disk is None else 'holds %d bytes' % len(disk)} and loads as {outcome[:120]!r}; neither the old registry {old_show[:60]!r} nor the new one {new_show[:60]!r}, and not the known truncate-in-place window",
                                      "case": {"old": oi, "new": ni, "k": k, "torn": torn, "trace": trace}})
+                # the application starts again after the crash: a file that cannot be read makes the
+                # start fail and must stay as it is (a second start sees the same); a readable one
+                # is what the session starts from and what it leaves behind
+                if (k + torn) % 3 == 0 or cat == "read_error":
+                    dist["restarts"] = dist.get("restarts", 0) + 1
+                    r1 = restart(loop, path)
+                    try:
+                        with open(path, "rb") as f:
+                            disk2 = f.read()
+                    except FileNotFoundError:
+                        disk2 = None
+                    after = load_dir(loop, path)
+                    if r1 != outcome or after != outcome or (cat == "read_error" and disk2 != disk):
+                        failures.append({"kind": "oracle", "sig": "C15:restart-destroys",
+                                         "desc": f"crash before step {k} of {trace} (torn={torn}) leaves a file that loads as {outcome[:60]!r}; starting the application on it (enter / leave the gateway context) gives {r1[:60]!r} and afterwards the file loads as {after[:60]!r}",
+                                         "case": {"old": oi, "new": ni, "k": k, "torn": torn}})
                 if inplace_shape and disk is not None:
                     before = k == 0
                     d.add(f"CRASH {1 if before else 0} {len(disk)} {len(new_text)}")
